@@ -1,8 +1,8 @@
 CONSTANTS NHol = 4
           NWk = 3
           NSess = 4
-          QDays = {0, 1, 2, 3, 4, 5, 6}
-          QSecs = {0, 46799, 46800, 46801, 81000, 86399}
+          QDays = {1, 2, 3, 4, 5}
+          QSecs = {46799, 46800, 46801, 81000}
           Depth = 0
           KeepHist = FALSE
           AskMod = 1
